@@ -18,7 +18,7 @@ Functions under contract (real code, re-read every run):
   io_operation_factory.py :: the four _process_logic_method bodies of create_data_operation (data/payload source, data/payload sink)
   orchestrator.py :: SemantivaOrchestrator.execute  (the node loop as a fold: harness and invariant shared with specs/C06.py; nodes abstract)
 Spec functions: Resolve (config > context > default), Logic_p (uninterpreted processor logic).
-Bounded tier (labelled bounded, never counted as proved): replay/c01_bounded.py runs generated pipelines (32 node configurations incl.
+Bounded tier (labelled bounded, never counted as proved): replay/c01_bounded.py runs generated pipelines (34 node configurations incl.
 slicers, a sweep, sources, a sink, context-writing operations, rename/delete/template) through the real Pipeline in ONE process and
 compares data, context, the log of leaf-processor invocations and the failing node with a reference interpreter of the documented
 semantics - the composition of the node contracts and whatever state the code keeps between runs.
